@@ -42,6 +42,11 @@ where
   {
     *self.on_finalize.write().unwrap() =
       Some(FunctionWrapper::new(move |_| f()));
+    if !self.subscriber.is_subscribed() {
+      // the subscription ended before the finalizer was registered (another thread can end it
+      // while the operator is still inside its subscribe function): run the finalizer now
+      self.finalize();
+    }
   }
 
   pub fn new_observer<XItem, Next, Error, Complete>(
